@@ -799,3 +799,49 @@ Proof.
     pose proof (mu_decreases fx s a s1 HI Ha E) as Hmu.
     specialize (IH s1 s' (step_inv _ _ _ _ HI E) Hint H). rewrite len_cons. lia.
 Qed.
+
+(** ** the statements of Props/C17.v over reachable states *)
+Lemma exclusion_reach fx v0 nk cache_of acts c1 cl1 c2 cl2 :
+  let s := run fx acts (init v0 nk cache_of) in
+  nth_error (clients s) c1 = Some cl1 -> nth_error (clients s) c2 = Some cl2 ->
+  write_guard cl1 = true ->
+  read_guard cl2 = false /\ (write_guard cl2 = true -> c1 = c2).
+Proof. intros. eapply exclusion_inv; eauto. apply reach_inv. Qed.
+
+Lemma fresh_reach fx v0 nk cache_of acts c cl :
+  let s := run fx acts (init v0 nk cache_of) in
+  nth_error (clients s) c = Some cl -> read_guard cl = true ->
+  exists v i, guard_value s cl = Some (v, i) /\ c_start cl <= i /\ i = idx s /\ v = o_val s /\
+              commit_at s i = Some v.
+Proof. intros. eapply fresh_inv; eauto. apply reach_inv. Qed.
+
+Lemma write_fresh_reach fx v0 nk cache_of acts c cl v i :
+  let s := run fx acts (init v0 nk cache_of) in
+  nth_error (clients s) c = Some cl -> (c_pc cl = WGot v i \/ c_pc cl = WHold v i) ->
+  v = o_val s /\ i = idx s /\ commit_at s i = Some v.
+Proof. intros. eapply write_guard_inv; eauto. apply reach_inv. Qed.
+
+Lemma durable_reach fx v0 nk cache_of acts :
+  let s := run fx acts (init v0 nk cache_of) in
+  o_val s = hd (o_init s) (o_log s) /\ g_commits s = len (o_log s) + in_flight s.
+Proof. intros. apply durable_inv, reach_inv. Qed.
+
+Lemma measure_reach fx v0 nk cache_of acts a s' :
+  let s := run fx acts (init v0 nk cache_of) in
+  internal a = true -> step fx s a = Some s' -> mu s' < mu s.
+Proof. intros. eapply mu_decreases; eauto. apply reach_inv. Qed.
+
+Lemma terminates_reach fx v0 nk cache_of acts iacts s' :
+  let s := run fx acts (init v0 nk cache_of) in
+  forallb internal iacts = true -> run_strict fx iacts s = Some s' -> len iacts + mu s' <= mu s.
+Proof. intros. eapply internal_run_bounded; eauto. apply reach_inv. Qed.
+
+Definition nonvac_acts : list action :=
+  expand FixNone [AInvRead 0; AInvRead 1; AInvWrite 2; ARelease 0; ARelease 1; ACommit 2 9; AInvRead 0]%nat
+         (init 5 2 [0; 1; 0]%nat).
+Lemma nonvacuous_run :
+  let s := run FixNone nonvac_acts (init 5 2 [0; 1; 0]%nat) in
+  map c_pc (clients s) = [RHold; CIdle; CIdle] /\
+  option_map (guard_value s) (nth_error (clients s) 0) = Some (Some (9, 1)) /\
+  o_log s = [9] /\ deadlocked FixNone s = false.
+Proof. vm_compute. repeat split; reflexivity. Qed.
